@@ -29,6 +29,29 @@ func GenPlan(prop string, batchSeed uint64, index int, tier string) *Plan {
 			op.ID = fmt.Sprintf("op%d", i)
 		}
 	}
+	// the generator profile every genCxx draws first (same sub-stream): which rare workload
+	// dimensions this plan has
+	o := SwarmOpts(NewRand(Mix(p.Seed, "profile")))
+	if o.NearTies {
+		p.Tags = append(p.Tags, "near-tie-values")
+	}
+	if o.IDPrefix != "" {
+		p.Tags = append(p.Tags, "long-or-multibyte-ids")
+	}
+	if o.ManyAlts {
+		p.Tags = append(p.Tags, "33-90-alternatives")
+	} else if o.MaxCrit >= 7 {
+		p.Tags = append(p.Tags, "large-request-profile")
+	}
+	if o.Negatives {
+		p.Tags = append(p.Tags, "negative-values")
+	}
+	if o.Collide {
+		p.Tags = append(p.Tags, "ids-equal-after-normalisation")
+	}
+	if o.NormWeights {
+		p.Tags = append(p.Tags, "weights-summing-to-1")
+	}
 	return p
 }
 
@@ -461,7 +484,8 @@ func genC08(p *Plan, tier string) {
 		if tier == "thorough" {
 			n = 6000
 		}
-		p.Ops = append(p.Ops, &Op{Kind: "freq", ID: "F", Freq: &FreqSpec{Template: req, Pos: pos, P: pr, N: n, SeedSeed: r.Uint64() >> 8, Sigma: 6}})
+		p.Ops = append(p.Ops, &Op{Kind: "freq", ID: "F", Freq: &FreqSpec{Template: req, Pos: pos, P: pr, N: n, SeedSeed: r.Uint64() >> 8, Sigma: 6,
+			SeedMode: r.PickS("", "", "seq", "seq", "seq-large", "neg", "step")}})
 	}
 	p.Profile = fmt.Sprintf("%s entries=%d enabled=%d", q.Method, len(list), len(enabledIdx))
 }
@@ -660,6 +684,8 @@ func genC10(p *Plan, tier string) {
 	groupFirst := r.Bool(0.3)
 	if !groupFirst {
 		solo()
+	} else {
+		p.Tags = append(p.Tags, "c10-group-before-solo")
 	}
 	groups := r.Range(1, 2)
 	if tier == "thorough" {
@@ -700,6 +726,7 @@ func genC10(p *Plan, tier string) {
 // (before or after the group) and must be answered identically.
 func genC10Soak(p *Plan, r *Rand, g *Gen, order *MapOrder) {
 	p.Profile = "soak"
+	p.Tags = append(p.Tags, "c10-soak")
 	base := g.Valid()
 	groups := r.Range(5, 9)
 	k := r.Range(2, 4)
@@ -768,6 +795,15 @@ func genC20(p *Plan, tier string) {
 		p.Ops = append(p.Ops, op)
 	}
 	p.Ops = append(p.Ops, &Op{Kind: "http", ID: "schema-ref", Method: "GET", Path: "/api/preferenceFunctions", NoBody: true, Expect: &Expect{Schema: true}})
+	rp := NewRand(Mix(p.Seed, "pad"))
+	pad := func(op *Op) {
+		// the same request as a large body (megabytes): nothing in the property depends on the size
+		if rp.Bool(0.004) {
+			op.Pad = int(rp.PickF(1100000, 2500000, 5000000, 11000000))
+			op.PadKind = rp.PickS("space", "lead", "field")
+			p.Tags = append(p.Tags, "c20-megabyte-body")
+		}
+	}
 	n := r.Range(4, 10)
 	for j := 0; j < n; j++ {
 		id := fmt.Sprintf("s%d", j)
@@ -784,18 +820,21 @@ func genC20(p *Plan, tier string) {
 			op := httpOp(id, JSONBytes(q.Body))
 			op.MapOrder = randMapOrder(r)
 			op.Expect = &Expect{Class: "ok"}
+			pad(op)
 			p.Ops = append(p.Ops, op)
 		case 2: // valid with biases
 			q := g.Valid()
 			op := httpOp(id, JSONBytes(q.Body))
 			op.MapOrder = randMapOrder(r)
 			op.Expect = &Expect{Class: "any"}
+			pad(op)
 			p.Ops = append(p.Ops, op)
 		case 3, 4: // one documented constraint violated
 			c := g.ViolateOne()
 			op := httpOp(id+":"+c.Name, JSONBytes(c.Body))
 			op.MapOrder = randMapOrder(r)
 			op.Expect = &Expect{Class: "reject", Contains: c.Contains, Name: c.Name, NoShrink: true, EchoReq: true}
+			pad(op)
 			p.Ops = append(p.Ops, op)
 		case 5, 6: // arbitrary bodies
 			kindName, body := g.Hostile()
